@@ -212,6 +212,7 @@ InstC01(h) ==
     \cup {Inst("Rename", r, [map |-> m]) : m \in {<<[f |-> nA, t |-> nZ]>>, <<[f |-> nA, t |-> nB], [f |-> nB, t |-> nA]>>,
                                                  <<[f |-> nA, t |-> nB]>>, <<[f |-> nZ, t |-> nA]>>}}
     \cup {Inst("RenameRegexp", r, [lit |-> nA, repl |-> <<122, 122>>]), Inst("RenameRegexp", r, [lit |-> <<46>>, repl |-> <<>>])}
+    \cup {Inst("Describe", r, [what |-> w]) : w \in {"length", "nseq", "taxa"}}
     \cup {Inst("CleanNames", r, NoArg), Inst("TrimNamesAuto", r, [curid |-> 1]), Inst("Sort", r, NoArg), Inst("Clear", r, NoArg),
           Inst("Deduplicate", r, [nasgap |-> FALSE]), Inst("Deduplicate", r, [nasgap |-> TRUE]),
           Inst("CloneSeqBag", r, NoArg), Inst("AutoAlphabet", r, NoArg), Inst("ShuffleSequences", r, [seed |-> 7]),
